@@ -66,6 +66,8 @@ static bool run_one(int scn, const std::vector<int>& prefix, Exec& out, bool sam
         uint64_t prev = __sync_val_compare_and_swap(&REACT[scn], 0, h);
         if (prev != 0 && prev != h) w.vios.push_back({"C19:chunking-dependent:" + SCN[scn].family(), "the same broker bytes split differently into reads produced a different client reaction: " + w.reaction_signature().substr(0, 200)});
     }
+    // vacuity guard: the undisturbed execution of a scenario must get through its whole script
+    if (prefix.empty() && w.script_pos < w.sc.script.size() && !w.capped && !SCN[scn].may_end_early) w.vios.push_back({"HARNESS:script-incomplete:" + SCN[scn].name, "the default execution ended at script position " + std::to_string(w.script_pos) + " of " + std::to_string(w.sc.script.size())});
     if (!w.vios.empty()) __sync_fetch_and_add(&st.vio_execs, 1);
     for (auto& v : w.vios) record_violation(scn, v, w.choices);
     if (sample && w.deviations > 0 && w.choices.size() < 300 && SH->nsamples < 6) {
